@@ -55,6 +55,26 @@ theorem lookupEnv_scopeOf (L : LCtx) (n : String) : Sem.lookupEnv [scopeOf L] n 
   rw [this, List.length_map]
   rcases List.find? (fun i => (L.getD i ("", 0)).1 == n) (List.range L.length).reverse with _ | i <;> rfl
 
+/-- an environment whose only declarations are the locals `L` (in its outermost scope) -/
+def EnvL (L : LCtx) (env : Sem.Env) : Prop := ∃ k, env = List.replicate k [] ++ [scopeOf L]
+
+theorem envL_base (L : LCtx) : EnvL L [scopeOf L] := ⟨0, rfl⟩
+
+theorem envL_cons {L : LCtx} {env : Sem.Env} (h : EnvL L env) : EnvL L ([] :: env) := by
+  obtain ⟨k, rfl⟩ := h
+  exact ⟨k + 1, rfl⟩
+
+theorem lookupEnv_envL {L : LCtx} {env : Sem.Env} (h : EnvL L env) (n : String) :
+    Sem.lookupEnv env n = lidx L n := by
+  obtain ⟨k, rfl⟩ := h
+  induction k with
+  | zero => exact lookupEnv_scopeOf L n
+  | succ k ih =>
+    rw [List.replicate_succ, List.cons_append]
+    unfold Sem.lookupEnv at ih ⊢
+    rw [List.findSome?_cons]
+    exact ih
+
 /-- the innermost call frame is the one of `main` (stack offset 0) -/
 def FrameOk (vs : VmState) : Prop := ∃ f, vs.frames.getLast? = some f ∧ f.stackOffset = 0
 
@@ -122,8 +142,8 @@ theorem reach_pop {ip : Nat} {vs : VmState} {cap : Nat} {stk : List Val} {x : Va
 end instrL
 
 theorem readVar_scope {cx : Sem.Ctx} (hout : cx.outer = []) {n : String} (hn : simpleName n = true)
-    (L : LCtx) (s : Sem.St) :
-    Sem.readVar cx [scopeOf L] s n = (s, [scopeOf L], match lidx L n with
+    {L : LCtx} {env : Sem.Env} (henv : EnvL L env) (s : Sem.St) :
+    Sem.readVar cx env s n = (s, env, match lidx L n with
       | some c => .ok (s.cells[c]?.getD .nil)
       | none => match glookup s.globals n with
         | some x => .ok x
@@ -131,7 +151,7 @@ theorem readVar_scope {cx : Sem.Ctx} (hout : cx.outer = []) {n : String} (hn : s
   simp only [simpleName, Bool.and_eq_true, decide_eq_true_eq, Bool.not_eq_true'] at hn
   obtain ⟨hsplit, hne⟩ := hn
   unfold Sem.readVar
-  simp only [hsplit, List.filter_nil, hne, Bool.false_eq_true, if_false, hout, lookupEnv_scopeOf, List.foldl_nil]
+  simp only [hsplit, List.filter_nil, hne, Bool.false_eq_true, if_false, hout, lookupEnv_envL henv, List.foldl_nil]
   rcases lidx L n with _ | c
   · simp only [Sem.lookupEnv, List.findSome?_nil]
     unfold glookup
@@ -174,10 +194,10 @@ section simL
 variable {P : Prog} {F : List (UInt32 × Nat)} {N : String → Prop} {cx : Sem.Ctx} (hout : cx.outer = [])
 include hout
 
-theorem eval_simL (L : LCtx) :
+theorem eval_simL (L : LCtx) (env : Sem.Env) (henv : EnvL L env) :
     ∀ (e : Card), isExpr e = true → ∀ (fuel : Nat) (σ σ' : Sem.St) (env' : Sem.Env) (v : Val) (pc pc' : Nat),
-      Sem.eval cx fuel [scopeOf L] σ e = (σ', env', .ok v) → ECodeL P.bytecode F L e pc pc' → pc' ≤ P.bytecode.size →
-      σ' = σ ∧ env' = [scopeOf L] ∧ ∃ n, n ≤ pc' - pc ∧
+      Sem.eval cx fuel env σ e = (σ', env', .ok v) → ECodeL P.bytecode F L e pc pc' → pc' ≤ P.bytecode.size →
+      σ' = σ ∧ env = env' ∧ ∃ n, n ≤ pc' - pc ∧
         ∀ (vs : VmState) (cap : Nat) (stk : List Val), StackIs vs.stack cap stk → stk.length + edepth e < cap →
           GRel F N σ.globals vs.globals → FrameOk vs → LRel L σ →
           (∃ temps, stk = temps ++ σ.cells.toList.reverse) →
@@ -242,13 +262,13 @@ theorem eval_simL (L : LCtx) :
       rw [eval_not] at hev
       simp only [ECodeL] at hcode
       obtain ⟨m, hc1, hop, rfl⟩ := hcode
-      rcases hc : Sem.eval cx f [scopeOf L] σ c with ⟨σ1, env1, r1⟩
+      rcases hc : Sem.eval cx f env σ c with ⟨σ1, env1, r1⟩
       rw [hc] at hev
       cases r1 with
       | ok v1 =>
         simp only [Prod.mk.injEq, Sem.Res.ok.injEq] at hev
         obtain ⟨rfl, rfl, rfl⟩ := hev
-        obtain ⟨rfl, rfl, n1, hn1, hsim1⟩ := eval_simL L c he f σ σ1 env1 v1 pc m hc hc1 (by omega)
+        obtain ⟨rfl, rfl, n1, hn1, hsim1⟩ := eval_simL L env henv c he f σ σ1 env1 v1 pc m hc hc1 (by omega)
         have hlt := ecodeL_lt hc1
         refine ⟨rfl, rfl, n1 + 1, by omega, fun vs cap stk hst hroom hg hfr hlr hbase => ?_⟩
         simp only [edepth] at hroom
@@ -273,19 +293,19 @@ theorem eval_simL (L : LCtx) :
       obtain ⟨m1, m2, hc1, hc2, hop, rfl⟩ := hcode
       have hlt1 := ecodeL_lt hc1
       have hlt2 := ecodeL_lt hc2
-      rcases hca : Sem.eval cx f [scopeOf L] σ a with ⟨σ1, env1, r1⟩
+      rcases hca : Sem.eval cx f env σ a with ⟨σ1, env1, r1⟩
       rw [hca] at hev
       cases r1 with
       | ok va =>
         simp only at hev
-        obtain ⟨rfl, rfl, n1, hn1, hsim1⟩ := eval_simL L a hea f σ σ1 env1 va pc m1 hca hc1 (by omega)
-        rcases hcb : Sem.eval cx f [scopeOf L] σ1 b with ⟨σ2, env2, r2⟩
+        obtain ⟨rfl, rfl, n1, hn1, hsim1⟩ := eval_simL L env henv a hea f σ σ1 env1 va pc m1 hca hc1 (by omega)
+        rcases hcb : Sem.eval cx f env σ1 b with ⟨σ2, env2, r2⟩
         rw [hcb] at hev
         cases r2 with
         | ok vb =>
           simp only [Prod.mk.injEq, Sem.Res.ok.injEq] at hev
           obtain ⟨rfl, rfl, rfl⟩ := hev
-          obtain ⟨rfl, rfl, n2, hn2, hsim2⟩ := eval_simL L b heb f σ1 σ2 env2 vb m1 m2 hcb hc2 (by omega)
+          obtain ⟨rfl, rfl, n2, hn2, hsim2⟩ := eval_simL L env henv b heb f σ1 σ2 env2 vb m1 m2 hcb hc2 (by omega)
           refine ⟨rfl, rfl, n1 + n2 + 1, by omega, fun vs cap stk hst hroom hg hfr hlr hbase => ?_⟩
           simp only [edepth] at hroom
           obtain ⟨hsa, vs1, hr1, hst1, hsame1, hg1⟩ := hsim1 vs cap stk hst (by omega) hg hfr hlr hbase
@@ -310,7 +330,7 @@ theorem eval_simL (L : LCtx) :
     cases fuel with
     | zero => rw [eval_zero] at hev; cases hev
     | succ f =>
-      rw [eval_readVar, readVar_scope hout he] at hev
+      rw [eval_readVar, readVar_scope hout he henv] at hev
       simp only [ECodeL] at hcode
       rcases hli : lidx L n with _ | i
       · rw [hli] at hev hcode
@@ -399,9 +419,9 @@ mutual
 end
 
 /-- expressions of the fragment evaluate to scalars -/
-theorem eval_scalar {cx : Sem.Ctx} (hout : cx.outer = []) (L : LCtx) :
+theorem eval_scalar {cx : Sem.Ctx} (hout : cx.outer = []) (L : LCtx) (env : Sem.Env) (henv : EnvL L env) :
     ∀ (e : Card), isExpr e = true → ∀ (fuel : Nat) (σ σ' : Sem.St) (env' : Sem.Env) (v : Val),
-      Sem.eval cx fuel [scopeOf L] σ e = (σ', env', .ok v) → LRel L σ → Scalar v
+      Sem.eval cx fuel env σ e = (σ', env', .ok v) → LRel L σ → Scalar v
   | .scalarInt i => by
     intro _ fuel σ σ' env' v hev _
     cases fuel with
@@ -423,7 +443,7 @@ theorem eval_scalar {cx : Sem.Ctx} (hout : cx.outer = []) (L : LCtx) :
     | zero => rw [eval_zero] at hev; cases hev
     | succ f =>
       rw [eval_not] at hev
-      rcases hc : Sem.eval cx f [scopeOf L] σ c with ⟨σ1, env1, r1⟩
+      rcases hc : Sem.eval cx f env σ c with ⟨σ1, env1, r1⟩
       rw [hc] at hev
       cases r1 <;> simp only [Prod.mk.injEq, Sem.Res.ok.injEq] at hev <;> try (obtain ⟨_, _, h⟩ := hev; cases h)
       trivial
@@ -434,7 +454,7 @@ theorem eval_scalar {cx : Sem.Ctx} (hout : cx.outer = []) (L : LCtx) :
     | zero => rw [eval_zero] at hev; cases hev
     | succ f =>
       rw [eval_bin _ _ _ _ k he.1.1] at hev
-      rcases hca : Sem.eval cx f [scopeOf L] σ a with ⟨σ1, env1, r1⟩
+      rcases hca : Sem.eval cx f env σ a with ⟨σ1, env1, r1⟩
       rw [hca] at hev
       cases r1 <;> simp only [Prod.mk.injEq] at hev <;> try (obtain ⟨_, _, h⟩ := hev; cases h)
       rcases hcb : Sem.eval cx f env1 σ1 b with ⟨σ2, env2, r2⟩
@@ -447,7 +467,7 @@ theorem eval_scalar {cx : Sem.Ctx} (hout : cx.outer = []) (L : LCtx) :
     cases fuel with
     | zero => rw [eval_zero] at hev; cases hev
     | succ f =>
-      rw [eval_readVar, readVar_scope hout he] at hev
+      rw [eval_readVar, readVar_scope hout he henv] at hev
       rcases hli : lidx L n with _ | i
       · rw [hli] at hev
         simp only at hev
@@ -551,22 +571,22 @@ def VmSimL (σ σ' : Sem.St) (pc pc' : Nat) (depth : Nat) (lf : Bool) : Prop :=
 
 /-- the simulation statement for one statement card (which declares no local) at fuel `f` -/
 def StmtSimL (f : Nat) (L : LCtx) (c : Card) : Prop :=
-  isStmtL L c = true → ∀ (σ σ' : Sem.St) (env' : Sem.Env) (pc pc' : Nat),
-    Sem.exec cx f [scopeOf L] σ c = (σ', env', .ok ()) → SCodeL P.bytecode F L c pc pc' →
+  isStmtL L c = true → ∀ (env : Sem.Env), EnvL L env → ∀ (σ σ' : Sem.St) (env' : Sem.Env) (pc pc' : Nat),
+    Sem.exec cx f env σ c = (σ', env', .ok ()) → SCodeL P.bytecode F L c pc pc' →
     pc' ≤ P.bytecode.size → (∀ n ∈ snames c, N n) → LRel L σ →
-      env' = [scopeOf L] ∧ SemFrame σ σ' ∧ LRel L σ' ∧ VmSimL P F N σ σ' pc pc' (sdepthL c) (loopFree c)
+      env = env' ∧ SemFrame σ σ' ∧ LRel L σ' ∧ VmSimL P F N σ σ' pc pc' (sdepthL c) (loopFree c)
 
 def StmtsSimL (f : Nat) (L : LCtx) (cs : List Card) : Prop :=
-  isStmtsL L cs = true → ∀ (σ σ' : Sem.St) (env' : Sem.Env) (pc pc' : Nat),
-    Sem.execListWith (Sem.exec cx f) [scopeOf L] σ cs = (σ', env', .ok ()) → SCodesL P.bytecode F L cs pc pc' →
+  isStmtsL L cs = true → ∀ (env : Sem.Env), EnvL L env → ∀ (σ σ' : Sem.St) (env' : Sem.Env) (pc pc' : Nat),
+    Sem.execListWith (Sem.exec cx f) env σ cs = (σ', env', .ok ()) → SCodesL P.bytecode F L cs pc pc' →
     pc' ≤ P.bytecode.size → (∀ n ∈ snamess cs, N n) → LRel L σ →
-      env' = [scopeOf L] ∧ SemFrame σ σ' ∧ LRel L σ' ∧ VmSimL P F N σ σ' pc pc' (sdepthsL cs) (loopFrees cs)
+      env = env' ∧ SemFrame σ σ' ∧ LRel L σ' ∧ VmSimL P F N σ σ' pc pc' (sdepthsL cs) (loopFrees cs)
 
 variable {P F N cx}
 
 theorem stmts_simL {f : Nat} {L : LCtx} (ih : ∀ c, StmtSimL P F N cx f L c) : ∀ cs, StmtsSimL P F N cx f L cs
   | [] => by
-    intro _ σ σ' env' pc pc' hex hcode _ _ hlr
+    intro _ env henv σ σ' env' pc pc' hex hcode _ _ hlr
     simp only [Sem.execListWith, Prod.mk.injEq] at hex
     obtain ⟨rfl, rfl, _⟩ := hex
     simp only [SCodesL] at hcode
@@ -574,7 +594,7 @@ theorem stmts_simL {f : Nat} {L : LCtx} (ih : ∀ c, StmtSimL P F N cx f L c) : 
     exact ⟨rfl, SemFrame.refl _, hlr, 0, fun _ => Nat.zero_le _, fun vs cap hst _ hg _ =>
       ⟨vs, Reach.refl _ _, hst, SameRest.refl _, hg⟩⟩
   | c :: cs => by
-    intro hs σ σ' env' pc pc' hex hcode hsz hN hlr
+    intro hs env henv σ σ' env' pc pc' hex hcode hsz hN hlr
     simp only [isStmtsL, Bool.and_eq_true] at hs
     simp only [SCodesL] at hcode
     obtain ⟨m, hc1, hc2⟩ := hcode
@@ -582,16 +602,16 @@ theorem stmts_simL {f : Nat} {L : LCtx} (ih : ∀ c, StmtSimL P F N cx f L c) : 
     have hle2 := scodesL_le hs.2 hc2
     have hle1 := scodeL_le hs.1 hc1
     simp only [Sem.execListWith] at hex
-    rcases hc : Sem.exec cx f [scopeOf L] σ c with ⟨σ1, env1, r1⟩
+    rcases hc : Sem.exec cx f env σ c with ⟨σ1, env1, r1⟩
     rw [hc] at hex
     cases r1 with
     | ok u =>
       cases u
       simp only at hex
       obtain ⟨rfl, e1, hlr1, n1, hn1, hsim1⟩ :=
-        ih c hs.1 σ σ1 env1 pc m hc hc1 (by omega) (fun n hn => hN n (Or.inl hn)) hlr
+        ih c hs.1 env henv σ σ1 env1 pc m hc hc1 (by omega) (fun n hn => hN n (Or.inl hn)) hlr
       obtain ⟨rfl, e2, hlr2, n2, hn2, hsim2⟩ :=
-        stmts_simL ih cs hs.2 σ1 σ' env' m pc' hex hc2 hsz (fun n hn => hN n (Or.inr hn)) hlr1
+        stmts_simL ih cs hs.2 env henv σ1 σ' env' m pc' hex hc2 hsz (fun n hn => hN n (Or.inr hn)) hlr1
       refine ⟨rfl, e1.trans e2, hlr2, n1 + n2, ?_, fun vs cap hst hd hg hfr => ?_⟩
       · intro hl
         simp only [loopFrees, Bool.and_eq_true] at hl
@@ -610,20 +630,20 @@ variable (hout : cx.outer = []) (hFinj : FInj F) (hNinj : HInj N)
 include hout hFinj hNinj
 
 theorem simL_setGlobal (f : Nat) (L : LCtx) (n : String) (e : Card) : StmtSimL P F N cx (f + 1) L (.setGlobalVar n e) := by
-  intro hs σ σ' env' pc pc' hex hcode hsz hN hlr
+  intro hs env henv σ σ' env' pc pc' hex hcode hsz hN hlr
   simp only [isStmtL, Bool.and_eq_true, Bool.not_eq_true'] at hs
   obtain ⟨hne, he⟩ := hs
   rw [exec_setGlobal] at hex
   simp only [SCodeL] at hcode
   obtain ⟨m, id, hc1, hop, hid, hrd, rfl⟩ := hcode
-  rcases hc : Sem.eval cx f [scopeOf L] σ e with ⟨σ1, env1, r1⟩
+  rcases hc : Sem.eval cx f env σ e with ⟨σ1, env1, r1⟩
   rw [hc] at hex
   cases r1 with
   | ok x =>
     simp only [hne, Bool.false_eq_true, if_false, Prod.mk.injEq, and_true] at hex
     obtain ⟨rfl, rfl⟩ := hex
-    have hsx0 := eval_scalar hout L e he f σ σ1 env1 x hc hlr
-    obtain ⟨rfl, rfl, n1, hn1, hsim1⟩ := eval_simL hout L e he f σ σ1 env1 x pc m hc hc1 (by omega)
+    have hsx0 := eval_scalar hout L env henv e he f σ σ1 env1 x hc hlr
+    obtain ⟨rfl, rfl, n1, hn1, hsim1⟩ := eval_simL hout L env henv e he f σ σ1 env1 x pc m hc hc1 (by omega)
     have hlt := ecodeL_lt hc1
     refine ⟨rfl, rfl, ⟨hlr.size, hlr.scalar, fun n' v hl => ?_⟩, n1 + 1, fun _ => by omega,
       fun vs cap hst hd hg hfr => ?_⟩
@@ -645,7 +665,7 @@ theorem simL_setGlobal (f : Nat) (L : LCtx) (n : String) (e : Card) : StmtSimL P
 omit hFinj hNinj in
 theorem simL_ifTrue (f : Nat) (L : LCtx) (ih : ∀ c, StmtSimL P F N cx f L c) (c b : Card) :
     StmtSimL P F N cx (f + 1) L (.bin .ifTrue c b) := by
-  intro hs σ σ' env' pc pc' hex hcode hsz hN hlr
+  intro hs env henv σ σ' env' pc pc' hex hcode hsz hN hlr
   simp only [isStmtL, Bool.and_eq_true] at hs
   obtain ⟨hec, hsb⟩ := hs
   rw [exec_ifTrue] at hex
@@ -653,16 +673,16 @@ theorem simL_ifTrue (f : Nat) (L : LCtx) (ih : ∀ c, StmtSimL P F N cx f L c) (
   obtain ⟨m, hc1, hop, hrd, hc2⟩ := hcode
   have hlt := ecodeL_lt hc1
   have hle := scodeL_le hsb hc2
-  rcases hc : Sem.eval cx f [scopeOf L] σ c with ⟨σ1, env1, r1⟩
+  rcases hc : Sem.eval cx f env σ c with ⟨σ1, env1, r1⟩
   rw [hc] at hex
   cases r1 with
   | ok x =>
     simp only at hex
-    obtain ⟨rfl, rfl, n1, hn1, hsim1⟩ := eval_simL hout L c hec f σ σ1 env1 x pc m hc hc1 (by omega)
+    obtain ⟨rfl, rfl, n1, hn1, hsim1⟩ := eval_simL hout L env henv c hec f σ σ1 env1 x pc m hc hc1 (by omega)
     by_cases ht : Sem.truthy σ1 x = true
     · rw [if_pos ht] at hex
       obtain ⟨rfl, e2, hlr2, n3, hn3, hsim3⟩ :=
-        ih b hsb σ1 σ' env' (m + 5) pc' hex hc2 hsz (fun n hn => hN n (by simpa [snames] using hn)) hlr
+        ih b hsb env henv σ1 σ' env' (m + 5) pc' hex hc2 hsz (fun n hn => hN n (by simpa [snames] using hn)) hlr
       refine ⟨rfl, e2, hlr2, n1 + 1 + n3, ?_, fun vs cap hst hd hg hfr => ?_⟩
       · intro hl
         have := hn3 (by simpa [loopFree] using hl)
@@ -690,7 +710,7 @@ theorem simL_ifTrue (f : Nat) (L : LCtx) (ih : ∀ c, StmtSimL P F N cx f L c) (
 omit hFinj hNinj in
 theorem simL_ifFalse (f : Nat) (L : LCtx) (ih : ∀ c, StmtSimL P F N cx f L c) (c b : Card) :
     StmtSimL P F N cx (f + 1) L (.bin .ifFalse c b) := by
-  intro hs σ σ' env' pc pc' hex hcode hsz hN hlr
+  intro hs env henv σ σ' env' pc pc' hex hcode hsz hN hlr
   simp only [isStmtL, Bool.and_eq_true] at hs
   obtain ⟨hec, hsb⟩ := hs
   rw [exec_ifFalse] at hex
@@ -698,12 +718,12 @@ theorem simL_ifFalse (f : Nat) (L : LCtx) (ih : ∀ c, StmtSimL P F N cx f L c) 
   obtain ⟨m, hc1, hop, hrd, hc2⟩ := hcode
   have hlt := ecodeL_lt hc1
   have hle := scodeL_le hsb hc2
-  rcases hc : Sem.eval cx f [scopeOf L] σ c with ⟨σ1, env1, r1⟩
+  rcases hc : Sem.eval cx f env σ c with ⟨σ1, env1, r1⟩
   rw [hc] at hex
   cases r1 with
   | ok x =>
     simp only at hex
-    obtain ⟨rfl, rfl, n1, hn1, hsim1⟩ := eval_simL hout L c hec f σ σ1 env1 x pc m hc hc1 (by omega)
+    obtain ⟨rfl, rfl, n1, hn1, hsim1⟩ := eval_simL hout L env henv c hec f σ σ1 env1 x pc m hc hc1 (by omega)
     by_cases ht : Sem.truthy σ1 x = true
     · rw [if_pos ht] at hex
       simp only [Prod.mk.injEq, and_true] at hex
@@ -716,7 +736,7 @@ theorem simL_ifFalse (f : Nat) (L : LCtx) (ih : ∀ c, StmtSimL P F N cx f L c) 
       exact ⟨vs2, hr1.trans hr2 rfl, hst2, hsame1.trans hsame2, by rw [hg2, hg1]; exact hg⟩
     · rw [if_neg ht] at hex
       obtain ⟨rfl, e2, hlr2, n3, hn3, hsim3⟩ :=
-        ih b hsb σ1 σ' env' (m + 5) pc' hex hc2 hsz (fun n hn => hN n (by simpa [snames] using hn)) hlr
+        ih b hsb env henv σ1 σ' env' (m + 5) pc' hex hc2 hsz (fun n hn => hN n (by simpa [snames] using hn)) hlr
       refine ⟨rfl, e2, hlr2, n1 + 1 + n3, ?_, fun vs cap hst hd hg hfr => ?_⟩
       · intro hl
         have := hn3 (by simpa [loopFree] using hl)
@@ -735,7 +755,7 @@ theorem simL_ifFalse (f : Nat) (L : LCtx) (ih : ∀ c, StmtSimL P F N cx f L c) 
 omit hFinj hNinj in
 theorem simL_ifElse (f : Nat) (L : LCtx) (ih : ∀ c, StmtSimL P F N cx f L c) (c t e : Card) :
     StmtSimL P F N cx (f + 1) L (.tri .ifElse c t e) := by
-  intro hs σ σ' env' pc pc' hex hcode hsz hN hlr
+  intro hs env henv σ σ' env' pc pc' hex hcode hsz hN hlr
   simp only [isStmtL, Bool.and_eq_true] at hs
   obtain ⟨⟨hec, hst_⟩, hse⟩ := hs
   rw [exec_ifElse] at hex
@@ -744,16 +764,16 @@ theorem simL_ifElse (f : Nat) (L : LCtx) (ih : ∀ c, StmtSimL P F N cx f L c) (
   have hlt := ecodeL_lt hc1
   have hle2 := scodeL_le hst_ hc2
   have hle3 := scodeL_le hse hc3
-  rcases hc : Sem.eval cx f [scopeOf L] σ c with ⟨σ1, env1, r1⟩
+  rcases hc : Sem.eval cx f env σ c with ⟨σ1, env1, r1⟩
   rw [hc] at hex
   cases r1 with
   | ok x =>
     simp only at hex
-    obtain ⟨rfl, rfl, n1, hn1, hsim1⟩ := eval_simL hout L c hec f σ σ1 env1 x pc m1 hc hc1 (by omega)
+    obtain ⟨rfl, rfl, n1, hn1, hsim1⟩ := eval_simL hout L env henv c hec f σ σ1 env1 x pc m1 hc hc1 (by omega)
     by_cases ht : Sem.truthy σ1 x = true
     · rw [if_pos ht] at hex
       obtain ⟨rfl, e2, hlr2, n3, hn3, hsim3⟩ :=
-        ih t hst_ σ1 σ' env' (m1 + 5) m2 hex hc2 (by omega)
+        ih t hst_ env henv σ1 σ' env' (m1 + 5) m2 hex hc2 (by omega)
           (fun n hn => hN n (by simp only [snames, List.mem_append]; exact Or.inl hn)) hlr
       refine ⟨rfl, e2, hlr2, n1 + 1 + n3 + 1, ?_, fun vs cap hst hd hg hfr => ?_⟩
       · intro hl
@@ -771,7 +791,7 @@ theorem simL_ifElse (f : Nat) (L : LCtx) (ih : ∀ c, StmtSimL P F N cx f L c) (
           ((hsame1.trans hsame2).trans hsame3).trans hsame4, by rw [hg4]; exact hg3⟩
     · rw [if_neg ht] at hex
       obtain ⟨rfl, e2, hlr2, n3, hn3, hsim3⟩ :=
-        ih e hse σ1 σ' env' (m2 + 5) pc' hex hc3 hsz
+        ih e hse env henv σ1 σ' env' (m2 + 5) pc' hex hc3 hsz
           (fun n hn => hN n (by simp only [snames, List.mem_append]; exact Or.inr hn)) hlr
       refine ⟨rfl, e2, hlr2, n1 + 1 + n3, ?_, fun vs cap hst hd hg hfr => ?_⟩
       · intro hl
@@ -792,7 +812,7 @@ theorem simL_ifElse (f : Nat) (L : LCtx) (ih : ∀ c, StmtSimL P F N cx f L c) (
 omit hFinj hNinj in
 theorem simL_while (f : Nat) (L : LCtx) (ih : ∀ c, StmtSimL P F N cx f L c) (c b : Card) :
     StmtSimL P F N cx (f + 1) L (.bin .while c b) := by
-  intro hs σ σ' env' pc pc' hex hcode hsz hN hlr
+  intro hs env henv σ σ' env' pc pc' hex hcode hsz hN hlr
   have hs0 := hs
   have hcode0 := hcode
   simp only [isStmtL, Bool.and_eq_true] at hs
@@ -802,24 +822,24 @@ theorem simL_while (f : Nat) (L : LCtx) (ih : ∀ c, StmtSimL P F N cx f L c) (c
   obtain ⟨m1, m2, hc1, hop1, hrd1, hc2, hop2, hrd2, rfl⟩ := hcode
   have hlt := ecodeL_lt hc1
   have hle2 := scodeL_le hsb hc2
-  rcases hc : Sem.eval cx f [scopeOf L] σ c with ⟨σ1, env1, r1⟩
+  rcases hc : Sem.eval cx f env σ c with ⟨σ1, env1, r1⟩
   rw [hc] at hex
   cases r1 with
   | ok x =>
     simp only at hex
-    obtain ⟨rfl, rfl, n1, hn1, hsim1⟩ := eval_simL hout L c hec f σ σ1 env1 x pc m1 hc hc1 (by omega)
+    obtain ⟨rfl, rfl, n1, hn1, hsim1⟩ := eval_simL hout L env henv c hec f σ σ1 env1 x pc m1 hc hc1 (by omega)
     by_cases ht : Sem.truthy σ1 x = true
     · rw [if_pos ht] at hex
-      rcases hb : Sem.exec cx f [scopeOf L] σ1 b with ⟨σ2, env2, r2⟩
+      rcases hb : Sem.exec cx f ([] :: env) σ1 b with ⟨σ2, env2, r2⟩
       rw [hb] at hex
       cases r2 with
       | ok u =>
         cases u
         simp only at hex
         obtain ⟨rfl, e2, hlr2, n3, hn3, hsim3⟩ :=
-          ih b hsb σ1 σ2 env2 (m1 + 5) m2 hb hc2 (by omega) (fun n hn => hN n (by simpa [snames] using hn)) hlr
+          ih b hsb ([] :: env) (envL_cons henv) σ1 σ2 env2 (m1 + 5) m2 hb hc2 (by omega) (fun n hn => hN n (by simpa [snames] using hn)) hlr
         obtain ⟨rfl, e5, hlr5, n5, hn5, hsim5⟩ :=
-          ih (.bin .while c b) hs0 σ2 σ' env' pc (m2 + 5) hex hcode0 hsz hN hlr2
+          ih (.bin .while c b) hs0 env henv σ2 σ' env' pc (m2 + 5) hex hcode0 hsz hN hlr2
         refine ⟨rfl, e2.trans e5, hlr5, n1 + 1 + n3 + 1 + n5, ?_, fun vs cap hst hd hg hfr => ?_⟩
         · intro hl
           simp [loopFree] at hl
@@ -857,19 +877,19 @@ theorem simL_while (f : Nat) (L : LCtx) (ih : ∀ c, StmtSimL P F N cx f L c) (c
 
 omit hFinj hNinj in
 theorem simL_setVar (f : Nat) (L : LCtx) (n : String) (e : Card) : StmtSimL P F N cx (f + 1) L (.setVar n e) := by
-  intro hs σ σ' env' pc pc' hex hcode hsz hN hlr
+  intro hs env henv σ σ' env' pc pc' hex hcode hsz hN hlr
   simp only [isStmtL, Bool.and_eq_true] at hs
   obtain ⟨⟨hn, hsome⟩, he⟩ := hs
   rw [exec_setVar cx hout f _ σ e hn] at hex
   simp only [SCodeL] at hcode
   obtain ⟨m, i, hli, hc1, hop, hrd, rfl⟩ := hcode
-  rcases hc : Sem.eval cx f [scopeOf L] σ e with ⟨σ1, env1, r1⟩
+  rcases hc : Sem.eval cx f env σ e with ⟨σ1, env1, r1⟩
   rw [hc] at hex
   cases r1 with
   | ok x =>
-    have hsx0 := eval_scalar hout L e he f σ σ1 env1 x hc hlr
-    obtain ⟨rfl, rfl, n1, hn1, hsim1⟩ := eval_simL hout L e he f σ σ1 env1 x pc m hc hc1 (by omega)
-    simp only [lookupEnv_scopeOf, hli, Prod.mk.injEq, and_true] at hex
+    have hsx0 := eval_scalar hout L env henv e he f σ σ1 env1 x hc hlr
+    obtain ⟨rfl, rfl, n1, hn1, hsim1⟩ := eval_simL hout L env henv e he f σ σ1 env1 x pc m hc hc1 (by omega)
+    simp only [lookupEnv_envL henv, hli, Prod.mk.injEq, and_true] at hex
     obtain ⟨rfl, rfl⟩ := hex
     have hlt := ecodeL_lt hc1
     have hi := lidx_lt hli
@@ -902,7 +922,7 @@ theorem exec_simL (L : LCtx) : ∀ (f : Nat) (c : Card), StmtSimL P F N cx f L c
   intro f
   induction f with
   | zero =>
-    intro c _ σ σ' env' pc pc' hex
+    intro c _ env henv σ σ' env' pc pc' hex
     rw [exec_zero] at hex
     simp only [Prod.mk.injEq] at hex
     obtain ⟨_, _, h⟩ := hex
@@ -913,7 +933,7 @@ theorem exec_simL (L : LCtx) : ∀ (f : Nat) (c : Card), StmtSimL P F N cx f L c
     | setGlobalVar n e => exact simL_setGlobal hout hFinj hNinj f L n e
     | setVar n e => exact simL_setVar hout f L n e
     | comment t =>
-      intro _ σ σ' env' pc pc' hex hcode _ _ hlr
+      intro _ env henv σ σ' env' pc pc' hex hcode _ _ hlr
       rw [exec_comment] at hex
       simp only [Prod.mk.injEq, and_true] at hex
       obtain ⟨rfl, rfl⟩ := hex
@@ -922,12 +942,12 @@ theorem exec_simL (L : LCtx) : ∀ (f : Nat) (c : Card), StmtSimL P F N cx f L c
       exact ⟨rfl, SemFrame.refl _, hlr, 0, fun _ => Nat.zero_le _, fun vs cap hst _ hg _ =>
         ⟨vs, Reach.refl _ _, hst, SameRest.refl _, hg⟩⟩
     | composite t cs =>
-      intro hs σ σ' env' pc pc' hex hcode hsz hN hlr
+      intro hs env henv σ σ' env' pc pc' hex hcode hsz hN hlr
       rw [exec_composite] at hex
       simp only [isStmtL] at hs
       simp only [SCodeL] at hcode
       simp only [snames] at hN
-      have := stmts_simL ih cs hs σ σ' env' pc pc' hex hcode hsz hN hlr
+      have := stmts_simL ih cs hs env henv σ σ' env' pc pc' hex hcode hsz hN hlr
       simpa only [loopFree, sdepthL] using this
     | tri k a b c =>
       cases k with
@@ -980,7 +1000,7 @@ theorem tops_sim (d : Int) (f : Nat) (hsim : ∀ L c, StmtSimL P F N cx f L c) :
     ∀ (cs : List Card) (L : LCtx), isTops d L cs = true → ∀ (σ σ' : Sem.St) (env' : Sem.Env) (pc pc' : Nat),
       Sem.execListWith (Sem.exec cx f) [scopeOf L] σ cs = (σ', env', .ok ()) →
       TCodes P.bytecode F d L cs pc pc' → pc' ≤ P.bytecode.size → (∀ n ∈ snamess cs, N n) → LRel L σ →
-      env' = [scopeOf (topsCtx d L cs)] ∧ SemFrame σ σ' ∧ LRel (topsCtx d L cs) σ' ∧
+      [scopeOf (topsCtx d L cs)] = env' ∧ SemFrame σ σ' ∧ LRel (topsCtx d L cs) σ' ∧
         VmSimL P F N σ σ' pc pc' (tdepths d L cs) (loopFrees cs)
   | [], L => by
     intro _ σ σ' env' pc pc' hex hcode _ _ hlr
@@ -1008,7 +1028,7 @@ theorem tops_sim (d : Int) (f : Nat) (hsim : ∀ L c, StmtSimL P F N cx f L c) :
         obtain ⟨m, hc1, hc2⟩ := hcode
         have hle2 := tcodes_le hs.2 hc2
         obtain ⟨rfl, e1, hlr1, n1, hn1, hsim1⟩ :=
-          hsim L c hs.1 σ σ1 env1 pc m hc hc1 (by omega) (fun n hn => hN n (Or.inl hn)) hlr
+          hsim L c hs.1 [scopeOf L] (envL_base L) σ σ1 env1 pc m hc hc1 (by omega) (fun n hn => hN n (Or.inl hn)) hlr
         obtain ⟨rfl, e2, hlr2, n2, hn2, hsim2⟩ :=
           tops_sim d f hsim cs L hs.2 σ1 σ' env' m pc' hex hc2 hsz (fun n hn => hN n (Or.inr hn)) hlr1
         refine ⟨rfl, e1.trans e2, hlr2, n1 + n2, ?_, fun vs cap hst hd hg hfr => ?_⟩
@@ -1033,8 +1053,8 @@ theorem tops_sim (d : Int) (f : Nat) (hsim : ∀ L c, StmtSimL P F N cx f L c) :
           rw [hce] at hc
           cases re with
           | ok x =>
-            have hsx0 := eval_scalar hout L e hs.1.2 f' σ σe enve x hce hlr
-            obtain ⟨rfl, rfl, n1, hn1, hsim1⟩ := eval_simL (P := P) (F := F) (N := N) hout L e hs.1.2 f' σ σe enve x pc m hce hc1 (by omega)
+            have hsx0 := eval_scalar hout L [scopeOf L] (envL_base L) e hs.1.2 f' σ σe enve x hce hlr
+            obtain ⟨rfl, rfl, n1, hn1, hsim1⟩ := eval_simL (P := P) (F := F) (N := N) hout L [scopeOf L] (envL_base L) e hs.1.2 f' σ σe enve x pc m hce hc1 (by omega)
             simp only [lookupEnv_scopeOf, hnone, Prod.mk.injEq, and_true] at hc
             obtain ⟨rfl, rfl⟩ := hc
             have henv : [scopeOf L ++ [(n, (Sem.newCell σe x).2)]] = [scopeOf (L ++ [(n, d)])] := by
@@ -1248,11 +1268,11 @@ theorem exec_benignB (cx : Sem.Ctx) (hout : cx.outer = []) : ∀ (fuel : Nat) (c
         | ok x =>
           simp only
           split
-          · have hb := ih b hs.2 env1 σ1
-            rcases hc2 : Sem.exec cx f env1 σ1 b with ⟨σ2, env2, r2⟩
+          · have hb := ih b hs.2 ([] :: env1) σ1
+            rcases hc2 : Sem.exec cx f ([] :: env1) σ1 b with ⟨σ2, env2, r2⟩
             rw [hc2] at hb
             cases r2 with
-            | ok u => cases u; exact ih _ hs0 env2 σ2
+            | ok u => cases u; exact ih _ hs0 env1 σ2
             | _ => first | trivial | exact hb
           · trivial
         | _ => first | trivial | exact he
@@ -1426,6 +1446,135 @@ theorem sem_run_benign_F2 (m std : Module) (hfrag : InF2 m = true) (fuel : Nat) 
   have hB' := isTops_B 1 nf.2.cards [] hst
   exact ⟨_, hrun, execList_benign _ (fun c hc env σ => exec_benignB cx hout fuel c (isStmtsB_mem hB' c hc) env σ) _ _⟩
 
+theorem exec_fuel_monoB (cx : Sem.Ctx) (hout : cx.outer = []) : ∀ (f : Nat) (c : Card), isStmtB c = true → ∀ (env : Sem.Env) (σ : Sem.St),
+    ¬ isOOF (Sem.exec cx f env σ c).2.2 → ∀ f', f ≤ f' → Sem.exec cx f' env σ c = Sem.exec cx f env σ c := by
+  intro f
+  induction f with
+  | zero => intro c _ env σ h; rw [exec_zero] at h; exact absurd trivial h
+  | succ f ih =>
+    intro c hs env σ h f' hf
+    obtain ⟨k, rfl⟩ : ∃ k, f' = k + 1 := ⟨f' - 1, by omega⟩
+    have hk : f ≤ k := by omega
+    cases c with
+    | comment t => rfl
+    | composite t cs =>
+      rw [exec_composite] at h ⊢
+      rw [exec_composite]
+      simp only [isStmtB] at hs
+      exact execList_fuel_mono cs (fun c hc env σ hn => ih c (isStmtsB_mem hs c hc) env σ hn k hk) env σ h
+    | setVar n e =>
+      simp only [isStmtB, Bool.and_eq_true] at hs
+      rw [exec_setVar cx hout f env σ e hs.1] at h ⊢
+      rw [exec_setVar cx hout k env σ e hs.1]
+      have ihe := eval_fuel_mono cx e hs.2 f env σ
+      rcases hc : Sem.eval cx f env σ e with ⟨σ1, env1, r1⟩
+      rw [hc] at h ihe
+      rw [ihe (by cases r1 <;> first | exact h | exact fun x => x) k hk]
+    | setGlobalVar n e =>
+      simp only [isStmtB, Bool.and_eq_true, Bool.not_eq_true'] at hs
+      rw [exec_setGlobal] at h ⊢
+      rw [exec_setGlobal]
+      have ihe := eval_fuel_mono cx e hs.2 f env σ
+      rcases hc : Sem.eval cx f env σ e with ⟨σ1, env1, r1⟩
+      rw [hc] at h ihe
+      rw [ihe (by cases r1 <;> first | exact h | exact fun x => x) k hk]
+    | tri kk a b c =>
+      cases kk with
+      | setProperty => simp [isStmtB] at hs
+      | ifElse =>
+        simp only [isStmtB, Bool.and_eq_true] at hs
+        rw [exec_ifElse] at h ⊢
+        rw [exec_ifElse]
+        have ihe := eval_fuel_mono cx a hs.1.1 f env σ
+        rcases hc : Sem.eval cx f env σ a with ⟨σ1, env1, r1⟩
+        rw [hc] at h ihe
+        rw [ihe (by cases r1 <;> first | exact h | exact fun x => x) k hk]
+        cases r1 with
+        | ok x =>
+          simp only at h ⊢
+          split at h
+          · rename_i ht; simp only [if_pos ht]; exact ih b hs.1.2 env1 σ1 h k hk
+          · rename_i ht; simp only [if_neg ht]; exact ih c hs.2 env1 σ1 h k hk
+        | _ => rfl
+    | bin kk a b =>
+      cases kk with
+      | ifTrue =>
+        simp only [isStmtB, Bool.and_eq_true] at hs
+        rw [exec_ifTrue] at h ⊢
+        rw [exec_ifTrue]
+        have ihe := eval_fuel_mono cx a hs.1 f env σ
+        rcases hc : Sem.eval cx f env σ a with ⟨σ1, env1, r1⟩
+        rw [hc] at h ihe
+        rw [ihe (by cases r1 <;> first | exact h | exact fun x => x) k hk]
+        cases r1 with
+        | ok x =>
+          simp only at h ⊢
+          split at h
+          · rename_i ht; simp only [if_pos ht]; exact ih b hs.2 env1 σ1 h k hk
+          · rename_i ht; simp only [if_neg ht]
+        | _ => rfl
+      | ifFalse =>
+        simp only [isStmtB, Bool.and_eq_true] at hs
+        rw [exec_ifFalse] at h ⊢
+        rw [exec_ifFalse]
+        have ihe := eval_fuel_mono cx a hs.1 f env σ
+        rcases hc : Sem.eval cx f env σ a with ⟨σ1, env1, r1⟩
+        rw [hc] at h ihe
+        rw [ihe (by cases r1 <;> first | exact h | exact fun x => x) k hk]
+        cases r1 with
+        | ok x =>
+          simp only at h ⊢
+          split at h
+          · rename_i ht; simp only [if_pos ht]
+          · rename_i ht; simp only [if_neg ht]; exact ih b hs.2 env1 σ1 h k hk
+        | _ => rfl
+      | «while» =>
+        have hs0 := hs
+        simp only [isStmtB, Bool.and_eq_true] at hs
+        rw [exec_while] at h ⊢
+        rw [exec_while]
+        have ihe := eval_fuel_mono cx a hs.1 f env σ
+        rcases hc : Sem.eval cx f env σ a with ⟨σ1, env1, r1⟩
+        rw [hc] at h ihe
+        rw [ihe (by cases r1 <;> first | exact h | exact fun x => x) k hk]
+        cases r1 with
+        | ok x =>
+          simp only at h ⊢
+          split at h
+          · rename_i ht
+            simp only [if_pos ht]
+            have ihb := ih b hs.2 ([] :: env1) σ1
+            rcases hc2 : Sem.exec cx f ([] :: env1) σ1 b with ⟨σ2, env2, r2⟩
+            rw [hc2] at h ihb
+            rw [ihb (by cases r2 <;> first | exact h | exact fun x => x) k hk]
+            cases r2 with
+            | ok u => cases u; simp only at h ⊢; exact ih _ hs0 env1 σ2 h k hk
+            | _ => rfl
+          · rename_i ht; simp only [if_neg ht]
+        | _ => rfl
+      | _ => simp [isStmtB] at hs
+    | _ => simp [isStmtB] at hs
+
+
+/-- **Fuel independence on F2**. -/
+theorem sem_run_fuel_mono_F2 (m std : Module) (hfrag : InF2 m = true) (f f' : Nat) (hle : f ≤ f')
+    (h : (Sem.run m std f).result ≠ "unspecified:out of fuel") : Sem.run m std f' = Sem.run m std f := by
+  obtain ⟨fn, hmain, _, hst, _⟩ := inF2_main hfrag
+  obtain ⟨i, nf, hi, hf, rfl⟩ := mainFn_some hmain
+  obtain ⟨cx, hout, hrun⟩ := sem_run_main' (std := std) hi hf
+  rw [hrun f] at h
+  rw [hrun f', hrun f]
+  have hB' := isTops_B 1 nf.2.cards [] hst
+  have hn : ¬ isOOF (Sem.execList cx f [[]] {} nf.2.cards).2.2 := by
+    intro hoof
+    rcases hx : Sem.execList cx f [[]] {} nf.2.cards with ⟨σ1, env1, r1⟩
+    rw [hx] at h hoof
+    cases r1 <;> first | exact hoof | exact h rfl
+  have : Sem.execList cx f' [[]] {} nf.2.cards = Sem.execList cx f [[]] {} nf.2.cards :=
+    execList_fuel_mono nf.2.cards
+      (fun c hc env σ hnc => exec_fuel_monoB cx hout f c (isStmtsB_mem hB' c hc) env σ hnc f' hle) [[]] {} hn
+  rw [this]
+
 /-! ### an example with locals (shown by evaluation: `String.splitOn` does not reduce in the kernel) -/
 
 theorem splitOn_a : ("a" : String).splitOn "." = ["a"] := by
@@ -1463,20 +1612,21 @@ theorem exLocals_inF2 : InF2 exLocals = true := by
 #eval showBoth exLocals
 
 
-/-! ### the reference semantics does not yet scope `While` bodies (finding)
+/-! ### `While` bodies are scoped on both sides (former finding, now agreeing)
 
-The repaired compiler pops the locals declared in a `While` body at the end of every iteration;
-`Sem.exec` still threads the environment out of the body, so a local declared in the body is
-visible after the loop in the reference semantics but not in the compiled program. -/
+The repaired compiler pops the locals declared in a `While` body at the end of every iteration, and
+(since the reference semantics was updated) `Sem.exec` runs the body in a fresh scope that is dropped
+after each iteration: a local declared in the body is not visible after the loop on either side
+(the read of `x` below is a read of a global that was never written). -/
 
 /-- `i = 0; while i < 1 { x = 5; i = i + 1 }; out = x` -/
-def findingWhileScope : Module := Module.mk [] [("main", { arguments := [], cards := [
+def exWhileScope : Module := Module.mk [] [("main", { arguments := [], cards := [
   .setGlobalVar "i" (.scalarInt 0),
   .bin .while (.bin .less (.readVar "i") (.scalarInt 1)) (.composite "b" [
     .setVar "x" (.scalarInt 5),
     .setGlobalVar "i" (.bin .add (.readVar "i") (.scalarInt 1))]),
   .setGlobalVar "out" (.readVar "x")] })] []
 
-#eval showBoth findingWhileScope
+#eval showBoth exWhileScope
 
 end Cao.C01
